@@ -91,6 +91,7 @@ class ProgGen:
             self.source(stmts, nm)
             ports.append(nm)
         fbs = []
+        nested_results = set()      # F4 avoidance: a sub-graph never returns a nested call's port directly
         if self.allow_fb and rng.random() < 0.35:
             for _ in range(rng.choice([1, 1, 2])):
                 nm = fresh()
@@ -113,6 +114,7 @@ class ProgGen:
                 args = [self.pick(ports) for _ in range(arity)]
                 stmts.append(S(nm, how, *args, sid=sid))
                 ports.append(nm)
+                nested_results.add(nm)
                 continue
             if self.allow_sched and r < 0.3 and ports:
                 u = self.uid()
@@ -138,7 +140,11 @@ class ProgGen:
             cands = [p for p in ports if p not in fbs]
             stmts.append(S("", "bind", f, rng.choice(cands)))
         if want_ret:
-            cands = [p for p in ports if p not in fbs] or ports
+            cands = [p for p in ports if p not in fbs and p not in nested_results]
+            if not cands:
+                nm = fresh()
+                stmts.append(S(nm, "pass", rng.choice([p for p in ports if p not in fbs] or ports), uid=self.uid()))
+                cands = [nm]
             # pass-through outputs (returning a parameter) are legal and interesting
             if params and rng.random() < 0.1:
                 stmts.append(S("", "RET", rng.choice(params)))
